@@ -38,7 +38,10 @@ def realise(rec, accel, prev_w=None):
         return {"type": "dma", "src": [0, FLASH_LUT + 256 * slot, 256],
                 "dst": [SHRAM_REGION, npuhw.lut_base(accel) + 256 * slot, 256]}
     li, lo = rec["lay"] & 1, (rec["lay"] >> 1) & 1
-    d = {"ifm": _fm(rec["r"], (H, W, C), li, tile=rec.get("tile", 0)), "block": "auto", "block_pick": rec["blk"]}
+    ifm = _fm(rec["r"], (H, W, C), li, tile=rec.get("tile", 0))
+    if rec.get("shift", 0) >= 4 and "tiles" not in ifm:
+        ifm["addr"] += rec["shift"] * W * C        # row pitch of both layouts for C = 16, int8
+    d = {"ifm": ifm, "block": "auto", "block_pick": rec["blk"]}
     if rec["lut"]:
         d["act"] = {"op": "TABLE_LOOKUP", "lut": rec["lut"] - 1}
     if k == "ew":
